@@ -123,4 +123,4 @@ def run(ctx, config='rel-all'):
     if config == 'rel-all':
         from .. import runner
         from . import c05
-        c05.run(runner.Sub(ctx, 'R4', 'C05'), config)
+        c05.run(runner.Sub(ctx, 'R4', 'C05', only={'W2', 'R3'}), config)      # the thread half; lifetimes of borrows inside one thread are C05's own business
